@@ -60,7 +60,8 @@ def chunks(tier, seed):
     out = []
     for d in fp.CTX:
         for pos in ("top", "cte_top", "setop_twice_operand", "from_sub", "join_sub", "in_sub", "setop_operand", "setop_base_operand", "setop_chain_operand", "setop_chain_operand_union", "setop_self",
-                    "setop_self_ordered_operand"):
+                    "setop_self_ordered_operand", "setop_self_rechained_union", "setop_self_rechained_union_all", "setop_self_rechained_intersect",
+                    "setop_self_rechained_except_of", "setop_self_rechained_minus"):
             for order in (False, True):
                 out.append({"d": d, "pos": pos, "order": order, "depth": 2 if tier == "quick" else 3})
     return out
@@ -243,6 +244,11 @@ def build_case(d, pos, order, seq):
         calls = first + [["union_all", {"calls": [["from", T], ["select", [["f", "t", "b"]]]]}]]
         if order:
             calls.append(["orderby", [fa], "asc"])
+        if "_rechained_" in pos:
+            # a third operand is chained on after the first row-limiting call (and after ORDER BY): what the set operation was told
+            # before stays in force
+            extra = [[pos.split("_rechained_")[1], {"calls": [["from", T], ["select", [["f", "t", "id"]]]]}]]
+            return {"calls": calls + seq[:1] + extra + seq[1:]}
         return {"calls": calls + seq}
     inner = {"calls": inner_calls + seq}
     if pos == "top":
